@@ -23,12 +23,46 @@ type CallFact struct {
 	Pos    token.Pos
 	Chain  []string
 	InLoop string // atom of the innermost ranged collection, "" when not in a loop
+	Alts   map[int][]Alt // for arguments that are branch-dependent (phi): each alternative with its branch context
+}
+
+// Alt is one alternative of a branch-dependent value together with the conditions of the branch.
+type Alt struct {
+	Atom string
+	Ctx  []string
+}
+
+func (ge *GuardEngine) phiAlts(v ssa.Value, env *Env, fi *fnInfo) []Alt {
+	return ge.phiAltsRec(v, env, fi, map[*ssa.Phi]bool{})
+}
+
+func (ge *GuardEngine) phiAltsRec(v ssa.Value, env *Env, fi *fnInfo, seen map[*ssa.Phi]bool) []Alt {
+	phi, ok := v.(*ssa.Phi)
+	if !ok || seen[phi] {
+		return nil
+	}
+	seen[phi] = true
+	var out []Alt
+	for i, e := range phi.Edges {
+		pred := phi.Block().Preds[i]
+		if inner, ok := e.(*ssa.Phi); ok {
+			out = append(out, ge.phiAltsRec(inner, env, fi, seen)...)
+			continue
+		}
+		out = append(out, Alt{ge.pv.Atom(e, env), ge.condCtx(fi, pred, env)})
+	}
+	return out
 }
 
 func (cf CallFact) String() string {
 	s := cf.Name + "(" + strings.Join(cf.Args, ", ") + ")"
 	if len(cf.Ctx) > 0 {
 		s += "  UNDER " + strings.Join(cf.Ctx, " && ")
+	}
+	for i, alts := range cf.Alts {
+		for _, a := range alts {
+			s += fmt.Sprintf("\n      arg%d alt: %s  WHEN %s", i, a.Atom, strings.Join(a.Ctx, " && "))
+		}
 	}
 	return s
 }
@@ -45,6 +79,7 @@ func (ge *GuardEngine) Calls(fn *ssa.Function, env *Env, chain, ctx []string, de
 	var out []CallFact
 	for _, b := range fn.Blocks {
 		for _, in := range b.Instrs {
+			ge.pv.loadCtx = []ssa.Instruction{in}
 			var cc *ssa.CallCommon
 			switch x := in.(type) {
 			case *ssa.Call:
@@ -57,6 +92,15 @@ func (ge *GuardEngine) Calls(fn *ssa.Function, env *Env, chain, ctx []string, de
 					Ctx:  append(append([]string{}, ctx...), ge.condCtx(fi, b, env)...)})
 				continue
 			case *ssa.Store:
+				if al, ok := x.Addr.(*ssa.Alloc); ok && al.Comment != "" {
+					// assignment to a local variable that is assigned in several places (branch-dependent value)
+					if whole, _ := ge.pv.storesTo(al, -1); len(whole) > 1 {
+						out = append(out, CallFact{Caller: fn, Name: "assign", Pos: x.Pos(), Chain: chain,
+							Args: []string{al.Comment, ge.pv.Atom(x.Val, env)},
+							Ctx:  append(append([]string{}, ctx...), ge.condCtx(fi, b, env)...)})
+					}
+					continue
+				}
 				if fa, ok := x.Addr.(*ssa.FieldAddr); ok {
 					if _, isAlloc := ge.pv.resolve(fa.X).(*ssa.Alloc); !isAlloc {
 						out = append(out, CallFact{Caller: fn, Name: "store", Pos: x.Pos(), Chain: chain,
@@ -73,8 +117,14 @@ func (ge *GuardEngine) Calls(fn *ssa.Function, env *Env, chain, ctx []string, de
 				continue
 			}
 			cf := CallFact{Caller: fn, Callee: callee, Name: FuncName(callee), Pos: in.Pos(), Chain: chain}
-			for _, a := range cc.Args {
+			for i, a := range cc.Args {
 				cf.Args = append(cf.Args, ge.pv.Atom(a, env))
+				if alts := ge.phiAlts(a, env, fi); len(alts) > 0 {
+					if cf.Alts == nil {
+						cf.Alts = map[int][]Alt{}
+					}
+					cf.Alts[i] = alts
+				}
 			}
 			cf.Ctx = append(append([]string{}, ctx...), ge.condCtx(fi, b, env)...)
 			out = append(out, cf)
@@ -127,22 +177,9 @@ func CheckCallReq(c *Ctx, rule string, r CallReq, calls []CallFact) {
 			continue
 		}
 		var bad []string
-		for _, cx := range cf.Ctx {
-			m := strings.HasPrefix(cx, "ok:") && strings.HasSuffix(cx, " is false")
-			if strings.HasPrefix(cx, "ok:") && strings.HasSuffix(cx, " is true") {
-				av := strings.TrimSuffix(strings.TrimPrefix(cx, "ok:"), " is true")
-				for _, a := range cf.Args {
-					if strings.Contains(a, av) {
-						m = true
-					}
-				}
-			}
-			for _, re := range ctxRes {
-				if re.MatchString(cx) {
-					m = true
-				}
-			}
-			if !m {
+		okv := ctxAllowed(cf.Ctx, ctxRes, cf.Args)
+		for i, cx := range cf.Ctx {
+			if !okv[i] {
 				bad = append(bad, cx)
 			}
 		}
